@@ -3,6 +3,13 @@
 #include <AIToolbox/Utils/LP.hpp>
 
 namespace AIToolbox::POMDP {
+#ifdef AITOOLBOX_VERIF
+    std::function<bool(const GapMin::VerifSnapshot &)> & GapMin::verifObserver() {
+        static std::function<bool(const VerifSnapshot &)> observer;
+        return observer;
+    }
+#endif
+
     GapMin::GapMin(const double initialTolerance, const unsigned digits) :
         precisionDigits_(digits)
     {
